@@ -192,24 +192,14 @@ structure MutORequestOK (svcs : List Svc) (A B T : String) (fs : List FieldSpec)
     (url = B ∧ IsNodeLookup T (leaves (Flat.fsB fs)) rq ∧ (∃ i, i ≠ "" ∧ rq.vars = [("id", J.str i)]) ∧
       ∀ f ∈ fs, occOn (schemaAt svcs url) T f.1 rq = if f.2.2 then 1 else 0)
 
-/-- **mutation with an object-valued root field, EVERY downstream** -/
-theorem mutO_every_downstream (h : MutO.Fam c ms A B T o fs) (hs : MutO.SvcFam c ms A B T o fs svcs)
-    (down : Downstream) (res : GwResult)
-    (hg : gateway c {} (MutO.op c ms T o fs) none down = .ok res) :
-    ∀ cl ∈ res.calls, ∀ rq ∈ cl.batch, MutORequestOK svcs A B T fs cl.url rq := by
-  rw [gateway_noVarDefs _ _ _ _ _ _ rfl] at hg
-  intro cl hcl rq hrq
-  obtain ⟨er, vars, hR, hurl, hv, rfl⟩ := gatewayCore_calls_from_reqs c {} none down (MutOReq c ms A B T o fs)
-    (mutOReq_closed c ms A B T o fs) _ id _ _ (MutO.stage_plan h)
-    (by
-      intro s hs'
-      obtain ⟨u, hu, rfl⟩ := List.mem_map.mp hs'
-      exact Or.inl ⟨u, hu, rfl⟩)
-    res hg cl hcl rq hrq
+theorem mutO_fromReq_ok (h : MutO.Fam c ms A B T o fs) (hs : MutO.SvcFam c ms A B T o fs svcs)
+    (url : String) (rq : Request) (hrq : FromReq c none (MutOReq c ms A B T o fs) url rq) :
+    MutORequestOK svcs A B T fs url rq := by
+  obtain ⟨er, vars, hR, hurl, hv, rfl⟩ := hrq
   rcases hR with ⟨u, hu, rfl⟩ | ⟨hB, hstep, x, hx⟩
   · have hvars := getVariables_root c _ vars hv
     subst hvars
-    have hurl' : cl.url = u := hurl.symm
+    have hurl' : url = u := hurl.symm
     rw [hurl']
     refine ⟨validFor_mutO_root h hs u hu [], Or.inl ⟨?_, ?_, rfl, ?_⟩⟩
     · simp [requestOf, header_mutO, h.hkind]
@@ -220,11 +210,36 @@ theorem mutO_every_downstream (h : MutO.Fam c ms A B T o fs) (hs : MutO.SvcFam c
     simp only at hstep hx
     subst hstep hx
     obtain ⟨i, hi, rfl⟩ := getVariables_point c _ x vars hv
-    have hurl' : cl.url = B := hurl.symm
+    have hurl' : url = B := hurl.symm
     rw [hurl']
     have hb := hs.tB hB
     refine ⟨validFor_lookup h.toFamT hb hB _, Or.inr ⟨rfl, isNodeLookup_rqB c B T o _ _, ⟨i, hi, rfl⟩, ?_⟩⟩
     intro f hf
     exact occOn_lookup h.toFamT hb _ f hf
+
+theorem mutO_roots (c : PCtx) (ms : List Mut.MSpec) (A B T o : String) (fs : List FieldSpec) :
+    ∀ s ∈ MutO.planOf c ms A B T o fs, MutOReq c ms A B T o fs ⟨s, s.ip⟩ := by
+  intro s hs'
+  obtain ⟨u, hu, rfl⟩ := List.mem_map.mp hs'
+  exact Or.inl ⟨u, hu, rfl⟩
+
+/-- **mutation with an object-valued root field, EVERY downstream** -/
+theorem mutO_every_downstream (h : MutO.Fam c ms A B T o fs) (hs : MutO.SvcFam c ms A B T o fs svcs)
+    (down : Downstream) (res : GwResult)
+    (hg : gateway c {} (MutO.op c ms T o fs) none down = .ok res) :
+    ∀ cl ∈ res.calls, ∀ rq ∈ cl.batch, MutORequestOK svcs A B T fs cl.url rq := by
+  rw [gateway_noVarDefs _ _ _ _ _ _ rfl] at hg
+  intro cl hcl rq hrq
+  exact mutO_fromReq_ok h hs _ _ (gatewayCore_calls_from_reqs c {} none down (MutOReq c ms A B T o fs)
+    (mutOReq_closed c ms A B T o fs) _ id _ _ (MutO.stage_plan h) (mutO_roots c ms A B T o fs) res hg cl hcl rq hrq)
+
+/-- **mutation with an object-valued root field: no invalid request is ever handed to a service** -/
+theorem mutO_guarded (h : MutO.Fam c ms A B T o fs) (hs : MutO.SvcFam c ms A B T o fs svcs) (down : Downstream) :
+    gateway c {} (MutO.op c ms T o fs) none (guardValid svcs down) = gateway c {} (MutO.op c ms T o fs) none down := by
+  rw [gateway_noVarDefs _ _ _ _ _ _ rfl, gateway_noVarDefs _ _ _ _ _ _ rfl]
+  refine gatewayCore_congr c {} none _ (MutOReq c ms A B T o fs) (mutOReq_closed c ms A B T o fs) down ?_ _ id _ _
+    (MutO.stage_plan h) (mutO_roots c ms A B T o fs)
+  intro url batch hb
+  exact guardValid_of_valid svcs down url batch (fun rq hrq => (mutO_fromReq_ok h hs url rq (hb rq hrq)).valid)
 
 end PebblesVerif.C02
